@@ -12,7 +12,7 @@
 (*   "c14"  removeparam rules x query-string shapes                          *)
 (*   "c15"  csp rules / exceptions x request types x tags                    *)
 (***************************************************************************)
-EXTENDS Optimizer, TLC, Json
+EXTENDS Optimizer, TLC, Json, Randomization
 
 CONSTANTS U, K, Big
 
@@ -295,6 +295,30 @@ PoolC13x == << XR("-x", "redirect-rule", "r1"), XR("-y", "redirect-rule", "r2"),
 ReqsC13x == << MkReq("https", "ab.ba", "/ab-x", "script", "x.com"), MkReq("https", "ab.ba", "/ab-y", "script", "x.com"),
                MkReq("https", "ab.ba", "/ab-x-y", "script", "x.com"), MkReq("https", "ab.ba", "/ab", "script", "x.com"),
                MkReq("https", "ab.ba", "/ab-z-x", "image", "ab.ba") >>
+\* universe rand: K random lists of 3..9 rules drawn (TLC Randomization) from a product space of patterns x anchors
+\* x every option, restricted to what the parser accepts and the properties cover.  Compositions no pool has.
+RandBodies == {"/ab", "ab", "/ab*ba", "*", "/bab", "-x", "/ab-", "/ab_", "ab.ba^"}
+RandSpace ==
+  { r \in { [R0 EXCEPT !.body = B(b), !.left = l, !.exc = e, !.pos = p, !.neg = n, !.party = pa, !.dom = d[1], !.ndom = d[2],
+                      !.important = im, !.tag = tg, !.mkind = m[1], !.mval = m[2]] :
+              b \in RandBodies, l \in {"none", "dpipe"}, e \in BOOLEAN,
+              p \in {{}, {"script"}, {"image"}, {"document"}}, n \in {{}, {"script"}}, pa \in {"any", "3p", "1p"},
+              d \in { <<{}, {}>>, <<{"ba.com"}, {}>>, <<{"ba.com", "abb.com"}, {}>>, <<{}, {"s.ba.com"}>>, <<{"ba.com"}, {"s.ba.com"}>> },
+              im \in BOOLEAN, tg \in {"", "t1"},
+              m \in { <<"none", "">>, <<"redirect", "r1">>, <<"redirect-rule", "r2">>, <<"csp", "d1">>, <<"removeparam", "ab">> } } :
+      /\ (r.left = "dpipe") = (r.body = B("ab.ba^"))
+      /\ ~(r.pos # {} /\ r.neg # {})
+      /\ (r.mkind = "csp" => r.pos = {} /\ r.neg = {})
+      /\ (r.mkind = "removeparam" => ~r.exc)
+      /\ (r.tag # "" => r.mkind \in {"none", "csp"})                  \* tag + redirect / removeparam: unsupported
+      /\ (r.mkind \in {"redirect", "redirect-rule"} => ~r.important)  \* not adjudicated: left out
+      /\ ~(r.body = B("*") /\ r.mkind = "none" /\ r.pos = {} /\ r.dom = {} /\ ~r.exc) }   \* a rule blocking everything hides the rest
+ReqsRand == <<
+  MkReq("https", "ab.ba", "/ab/ba/bab", "script", "ab.ba"), MkReq("https", "x.com", "/ab-x", "script", "ba.com"),
+  MkReq("https", "x.com", "/ab_", "image", "s.ba.com"), MkReq("https", "ab.ba", "/", "document", "ab.ba"),
+  MkReq("https", "s.ab.ba", "/x?ab=1&ba=2", "sub_frame", "abb.com"), MkReq("https", "x.com", "/bab", "xhr", "x.com"),
+  MkReq("http", "ab.ba", "/ab?ab=1", "xhr", "ba.com"), MkReq("https", "x.com", "/x-", "image", ""),
+  MkReq("https", "x.com", "/ab.ba/ab", "script", "x.com"), MkReq("https", "xab.ba", "/ab-/ba", "other", "ba.com") >>
 \* resources in the order they are added; the last two collide with earlier names/aliases and
 \* must be rejected (their content differs, so serving them would be visible)
 ResSeqC13 == <<
@@ -356,10 +380,10 @@ ReqsC15 == SetToSeqD(
 --------------------------------------------------------------------------
 Pool == CASE U = "c01" -> PoolC01 [] U = "c01d" -> PoolC01d [] U = "c07" -> PoolC07 [] U = "c04b" -> PoolC04b [] U = "c05" -> PoolC05 [] U = "c08" -> PoolC08 [] U = "c13" -> PoolC13 [] U = "c13x" -> PoolC13x [] U = "c14" -> PoolC14
           [] U = "c15" -> PoolC15 [] OTHER -> <<>>
-Reqs == CASE U = "c03" -> ReqsC03 [] U = "c01" -> ReqsC01 [] U = "c01d" -> ReqsC01d [] U = "c07" -> ReqsC07 [] U = "c04b" -> ReqsC04b [] U = "c05" -> ReqsC05 [] U = "c08" -> ReqsC08 [] U = "c13" -> ReqsC13 [] U = "c13x" -> ReqsC13x
+Reqs == CASE U = "c03" -> ReqsC03 [] U = "c01" -> ReqsC01 [] U = "c01d" -> ReqsC01d [] U = "c07" -> ReqsC07 [] U = "c04b" -> ReqsC04b [] U = "c05" -> ReqsC05 [] U = "c08" -> ReqsC08 [] U = "c13" -> ReqsC13 [] U = "c13x" -> ReqsC13x [] U = "rand" -> ReqsRand
           [] U = "c14" -> ReqsC14 [] U = "c15" -> ReqsC15
-Res == IF U \in {"c13", "c13x", "c01", "c04b", "c05", "c08"} THEN ResC13 ELSE {}
-Tags == IF U \in {"c01", "c01d", "c07", "c15", "c04b", "c05", "c08"} THEN {"t1", "t2"} ELSE {}
+Res == IF U \in {"rand", "c13", "c13x", "c01", "c04b", "c05", "c08"} THEN ResC13 ELSE {}
+Tags == IF U \in {"rand", "c01", "c01d", "c07", "c15", "c04b", "c05", "c08"} THEN {"t1", "t2"} ELSE {}
 
 \* increasing index sequences of length <= K over 1..n
 RECURSIVE IncSeqs(_, _, _)
@@ -371,13 +395,14 @@ IncSeqs(lo, n, k) ==
 \* one "seed" state per partition, whose successors (the cases) are generated and
 \* checked by the workers in parallel.
 PartsC03 == SetToSeqD({ <<s, pa>> : s \in ShapesC03, pa \in {"any", "3p", "1p"} })
-NParts == IF U = "c03" THEN Len(PartsC03) ELSE Len(Pool) + 1
+NParts == IF U = "c03" THEN Len(PartsC03) ELSE IF U = "rand" THEN K ELSE Len(Pool) + 1
 
 Base == IF U = "c13x" THEN BaseC13x ELSE <<>>
 ListsOf(p) ==
   IF U = "c03"
   THEN { << [PartsC03[p][1] EXCEPT !.pos = PosOf(S), !.neg = NegOf(S), !.party = PartsC03[p][2],
                                    !.dom = d[1], !.ndom = d[2]] >> : S \in AtomSets, d \in DomVariants }
+  ELSE IF U = "rand" THEN {SetToSeqD(RandomSubset(RandomElement(3..9), RandSpace))}
   ELSE IF p = Len(Pool) + 1 THEN {Base}
   ELSE {Base \o [j \in 1..Len(s) |-> Pool[s[j]]] : s \in {<<p>> \o t : t \in IncSeqs(p + 1, Len(Pool), K - 1)}}
 
@@ -423,7 +448,7 @@ CaseRecord(f) ==
       keepIdx == SelectSeq([i \in DOMAIN L |-> i], LAMBDA i : L[i].mkind # "removeparam")
       Lw == [j \in DOMAIN keepIdx |-> L[keepIdx[j]]]
       mvw == [q \in DOMAIN Reqs |-> IdealVerdictsH(Lw, T, Res, Reqs[q], [j \in DOMAIN keepIdx |-> EngineHits(f, keepIdx[j], q)])]
-      base0 == [k |-> "net", u |-> U, mono |-> (U \in {"c01", "c01d", "c05"}), rules |-> [i \in DOMAIN L |-> RuleText(L[i])], tags |-> T,
+      base0 == [k |-> "net", u |-> U, mono |-> (U \in {"c01", "c01d", "c05", "rand"}), rules |-> [i \in DOMAIN L |-> RuleText(L[i])], tags |-> T,
                v |-> iv, csp |-> ic,
                \* check_network_request_subset under the three other flag combinations (universe c01 only)
                subset |-> IF U = "c01"
@@ -433,7 +458,7 @@ CaseRecord(f) ==
                                               hv \in HitVectorsH([i \in DOMAIN L |-> f[q][i].ideal])}]]
                           ELSE <<>>,
                \* Optimizer.tla: which rules the optimised engine fuses (observable in the debug text)
-               fuse |-> IF U \in {"c01", "c05"}
+               fuse |-> IF U \in {"c01", "c05", "rand"}
                         THEN SetToSeqD({ {RuleText(L[i]) : i \in G} : G \in AllFuseGroups(L, T) }) ELSE <<>>,
                dev |-> SetToSeqD({ [q |-> q, names |-> UNION {DevHit(L[i], Reqs[q]) : i \in DOMAIN L}, mv |-> mv[q], mcsp |-> mc[q]] : q \in devq })]
       mh == [q \in DOMAIN Reqs |-> [i \in DOMAIN L |->
@@ -479,7 +504,7 @@ RefinesAndExports ==
           \/ DevHit(L[i], Reqs[q]) # {}
     /\ \A q \in DOMAIN Reqs : IdealVerdictsH(L, T, Res, Reqs[q], [i \in DOMAIN L |-> f[q][i].ideal]) # {}
     /\ MonotoneIdeal(f)
-    /\ (U \in {"c01", "c05"} => FuseSound(L, T, Reqs) /\ \A i \in DOMAIN L : TokenViewsAgree(L[i]))
+    /\ (U \in {"c01", "c05", "rand"} => FuseSound(L, T, Reqs) /\ \A i \in DOMAIN L : TokenViewsAgree(L[i]))
     /\ PrintT(ToJson(CaseRecord(f)))
 
 ASSUME PrintT(ToJson([k |-> "universe", u |-> U,
